@@ -103,6 +103,7 @@ func init() {
 					hs = append(hs, l2mark(5, 3, 3, 1, tierSel(tier, 3, 5), "restart"))
 				}
 				if lp.prop == 6 {
+					hs[0].Witnesses = append(hs[0].Witnesses, "panic-with-InternalError")
 					hs = append(hs, HarnessSpec{Name: "budget-exhausted-by-a-parent-with-children", Pkg: "actor", Func: "ZZ_C08", Preempt: 1,
 						Params: pm("D", 1, "F", 2, "mode", 5), Witnesses: []string{"terminated-after-a-restart"}, Deadline: 40 * time.Minute, ReplayAttempts: 8})
 				}
@@ -141,7 +142,7 @@ func init() {
 			mw := []string{"delivered-from-bytes", "rejected", "negative-index-decoded"}
 			return []HarnessSpec{
 				{Name: "reader-envelope", Pkg: "remote", Func: "ZZ_C16_Reader", Params: pm("M", tierSel(tier, 2, 3)),
-					Witnesses: []string{"delivered"}, Deadline: 30 * time.Minute},
+					Witnesses: []string{"delivered", "empty-type-name"}, Deadline: 60 * time.Minute},
 				{Name: "decoder-on-arbitrary-bytes", Pkg: "remote", Func: "ZZ_C16_Bytes", Params: pm("N", tierSel(tier, 5, 6)),
 					Witnesses: []string{"accepted", "accepted-with-message", "rejected"}, Deadline: 120 * time.Minute},
 				{Name: "message-body-bytes", Pkg: "remote", Func: "ZZ_C16_MsgBytes", Params: pm("K", tierSel(tier, 6, 7)),
@@ -193,7 +194,9 @@ func init() {
 	reg(&PropSpec{
 		ID: "C09",
 		Harnesses: func(tier string) []HarnessSpec {
-			return []HarnessSpec{es(9, tier, "stopped-subscriber", "equal-pid-distinct-object")}
+			return []HarnessSpec{es(9, tier, "stopped-subscriber", "equal-pid-distinct-object"),
+				{Name: "dead-letters-while-the-registry-is-written", Pkg: "actor", Func: "ZZ_C09_Conc", Preempt: tierSel(tier, 1, 2), Params: pm("G", tierSel(tier, 2, 2)),
+					Witnesses: []string{"dead-letters-while-the-registry-is-written"}, Deadline: 60 * time.Minute}}
 		},
 		Bounds: func(tier string) string {
 			return fmt.Sprintf("histories of %d operations (subscribe / unsubscribe with the same or an equal PID object, broadcast, send to an unregistered local PID with or without sender, send to a foreign address without remote, send to nil, a subscriber stops while subscribed) over 2 subscribers; the operation, object identity and sender choices are symbolic; 'finite' = the event queue drains within 30 handled events after each operation", tierSel(tier, 4, 5))
@@ -222,6 +225,10 @@ func init() {
 					Witnesses: []string{"mixed-nil-sender", "unserialisable", "zero-length-payload", "sender-is-also-a-target"}, Deadline: 30 * time.Minute},
 				{Name: "writer-codec-reader-roundtrip", Pkg: "remote", Func: "ZZ_C15_RoundTrip", Params: pm("N", 2, "SL", 2, "WIRE", 1),
 					Witnesses: []string{"mixed-nil-sender", "unserialisable"}, Deadline: 30 * time.Minute},
+				// the production configuration: real ProtoSerializer on both sides, module message types, the two kinds
+				// of payload it cannot serialise (invalid UTF-8 in a string field, a value that is no protobuf message)
+				{Name: "production-serializer-roundtrip", Pkg: "remote", Func: "ZZ_C15_Proto", Params: pm("N", tierSel(tier, 3, 4)),
+					Witnesses: []string{"batch-checked", "zero-length-payload", "payload-that-proto-Marshal-refuses", "payload-that-is-not-a-protobuf-message"}, Deadline: 30 * time.Minute},
 			}
 			// the wire codec alone: each index field in turn over the whole int32 range, the others 0..127
 			for _, w := range []int{1, 2, 4} {
@@ -237,9 +244,9 @@ func init() {
 			return hs
 		},
 		Bounds: func(tier string) string {
-			return fmt.Sprintf("(a) batches of 1..%d messages to 2 targets on the receiving node; per message: sender absent, one of the target PIDs, or a PID whose address and id are symbolic strings of 1..2 bytes each (equal senders and senders differing only in the address/id split included), one of 2 type names, symbolic payload byte, symbolic 'cannot be serialised' and 'serialises to zero bytes' flags; the Envelope is handed over in memory; (b) the same with batches of 1..2 and the Envelope carried as the bytes of the real MarshalVT and decoded by the real UnmarshalVT; (c) the generated codec alone (SizeVT, MarshalVT, UnmarshalVT of Envelope/Message/PID): one message whose TypeNameIndex / SenderIndex / TargetIndex in turn ranges over all of int32 (every varint length class, negative = 10 bytes) while the others range over 0..127, 0..2 symbolic payload bytes%s", tierSel(tier, 2, 3), map[string]string{"quick": "", "thorough": "; thorough: all three indices wide at once, two messages with one wide index each, and table shapes 0..2 x 0..2 x 0..1"}[tier])
+			return fmt.Sprintf("(a) batches of 1..%d messages to 2 targets on the receiving node; per message: sender absent, one of the target PIDs, or a PID whose address and id are symbolic strings of 1..2 bytes each (equal senders and senders differing only in the address/id split included), one of 2 type names, symbolic payload byte, symbolic 'cannot be serialised' and 'serialises to zero bytes' flags; the Envelope is handed over in memory; (b) the same with batches of 1..2 and the Envelope carried as the bytes of the real MarshalVT and decoded by the real UnmarshalVT; (c) the generated codec alone (SizeVT, MarshalVT, UnmarshalVT of Envelope/Message/PID): one message whose TypeNameIndex / SenderIndex / TargetIndex in turn ranges over all of int32 (every varint length class, negative = 10 bytes) while the others range over 0..127, 0..2 symbolic payload bytes; (d) production configuration: batches of 1..%d messages through the real ProtoSerializer on both sides and the real codec, each message one of TestMessage with a data byte / actor.PID as payload / empty TestMessage / a PID payload with an id that is not valid UTF-8 / a value that is not a protobuf message, to one of 2 targets, with or without sender%s", tierSel(tier, 2, 3), tierSel(tier, 3, 4), map[string]string{"quick": "", "thorough": "; thorough: all three indices wide at once, two messages with one wide index each, and table shapes 0..2 x 0..2 x 0..1"}[tier])
 		},
-		Outside:     []string{"protobuf marshalling of the payloads (ProtoSerializer, protobuf reflection): serializer/deserializer are stubs", "DRPC framing", "a payload that is not a proto.Message (ProtoSerializer.TypeName type assertion)", "targets on several addresses (one stream writer serves one address)", "longer batches and strings", "codec: three or more simultaneously multi-byte indices across several messages"},
+		Outside:     []string{"the protobuf runtime below ProtoSerializer (reflection-based Marshal/Unmarshal/registry) is a model: the message's own generated VT codec plus the UTF-8 check proto.Marshal/Unmarshal perform; ProtoSerializer's three methods themselves are executed in the production-serializer harness, the table/index harnesses use stub serializers with symbolic outcomes", "DRPC framing", "targets on several addresses (one stream writer serves one address)", "longer batches and strings", "codec: three or more simultaneously multi-byte indices across several messages"},
 		Assumptions: seqAssume("writer = real streamWriter.Invoke with a stub stream/conn; reader = real streamReader.Receive on a bare engine with recording processes; xxh3.Hash, where still used, is an uninterpreted function with injectivity instances"),
 	})
 
@@ -297,7 +304,7 @@ func init() {
 		ID: "C10",
 		Harnesses: func(tier string) []HarnessSpec {
 			return []HarnessSpec{
-				{Name: "spawn-stop-respawn", Pkg: "actor", Func: "ZZ_C10_Seq", Params: pm("K", tierSel(tier, 5, 6)), Witnesses: []string{"duplicate-spawn", "respawn-after-stop"}},
+				{Name: "spawn-stop-respawn", Pkg: "actor", Func: "ZZ_C10_Seq", Params: pm("K", tierSel(tier, 5, 6)), Witnesses: []string{"duplicate-spawn", "respawn-after-stop", "died-during-its-own-start"}},
 				l2(10, tierSel(tier, 1, 2), 2, 0),
 				l2mark(10, 3, 2, 0, tierSel(tier, 4, 6), "send-before-registration"),
 				{Name: "id-respawned-while-owner-shuts-down", Pkg: "actor", Func: "ZZ_C08", Preempt: tierSel(tier, 1, 2), Params: pm("D", 1, "F", 2, "mode", 1),
